@@ -140,7 +140,11 @@ func (f *facts) demands(p caseParams) map[string][]demand {
 			if p.Mode == 2 && f.Commits[w.Head].Tree[pth] == oid {
 				continue
 			}
-			add(oid, "index", wtName(w))
+			desc := wtName(w)
+			if st := w.File[pth]; st != "" {
+				desc += ",file=" + st
+			}
+			add(oid, "index", desc)
 		}
 	}
 	// stashes: what the stash adds on top of its base commit (WIP commit, index commit ^2, untracked commit ^3)
